@@ -289,9 +289,9 @@ def r11(src, counts):
 def r12(src, counts):
     def take(mo):
         counts['R12.take'] += 1
-        return 'crate::shim::TakeShim::new(%s, %s)' % (mo.group(1), mo.group(2))
+        return 'crate::adapt::TakeShim::new(%s, %s)' % (mo.group(1), mo.group(2))
     src = re.sub(r'\b(\w+)\.take\((\w+)\)', lambda mo: take(mo) if mo.group(1) in ('input', 'count_input') else mo.group(0), src)
-    src, k = re.subn(r'\bio::BufReader::new\(', 'crate::shim::BufReaderShim::new(', src)
+    src, k = re.subn(r'\bio::BufReader::new\(', 'crate::adapt::BufReaderShim::new(', src)
     counts['R12.bufreader'] += k
     return src
 
